@@ -12,6 +12,42 @@ use crate::cli::SymlinkMode;
 #[cfg(test)]
 use crate::integrity::ChecksumType;
 
+/// Verification hook H4 (only with `--cfg nijaru_sy_verif`): when `SY_VERIF_WATCH_TRACE=<file>` is set,
+/// append one line `<t_us> <decision> [key=value]...` per watch-loop decision.
+#[cfg(nijaru_sy_verif)]
+fn verif_trace(line: &str) {
+    use std::io::Write;
+    static START: std::sync::OnceLock<Instant> = std::sync::OnceLock::new();
+    let t = START.get_or_init(Instant::now).elapsed().as_micros();
+    if let Ok(p) = std::env::var("SY_VERIF_WATCH_TRACE") {
+        if let Ok(mut f) = std::fs::OpenOptions::new().create(true).append(true).open(p) {
+            let _ = writeln!(f, "{} {}", t, line);
+        }
+    }
+}
+
+/// Verification hook H4: `SY_VERIF_WATCH_SYNC_DELAY_MS=<n>` keeps every watch-mode sync "in progress"
+/// for `n` more milliseconds after the engine returned (widens the during-a-sync window for tests).
+#[cfg(nijaru_sy_verif)]
+async fn verif_sync_delay() {
+    if let Some(ms) = std::env::var("SY_VERIF_WATCH_SYNC_DELAY_MS").ok().and_then(|v| v.parse::<u64>().ok()) {
+        tokio::time::sleep(Duration::from_millis(ms)).await;
+    }
+}
+
+#[cfg(nijaru_sy_verif)]
+fn verif_kind(kind: &notify::EventKind) -> &'static str {
+    use notify::EventKind;
+    match kind {
+        EventKind::Any => "any",
+        EventKind::Access(_) => "access",
+        EventKind::Create(_) => "create",
+        EventKind::Modify(_) => "modify",
+        EventKind::Remove(_) => "remove",
+        EventKind::Other => "other",
+    }
+}
+
 pub struct WatchMode<T: Transport> {
     engine: SyncEngine<T>,
     source: PathBuf,
@@ -40,10 +76,19 @@ impl<T: Transport + 'static> WatchMode<T> {
         let (tx, rx) = channel();
         let mut watcher: RecommendedWatcher = notify::recommended_watcher(tx)?;
         watcher.watch(&self.source, RecursiveMode::Recursive)?;
+        #[cfg(nijaru_sy_verif)]
+        verif_trace("armed");
 
         // Initial sync
         tracing::info!("Running initial sync...");
+        #[cfg(nijaru_sy_verif)]
+        verif_trace("initial-sync-start");
         self.engine.sync(&self.source, &self.destination).await?;
+        #[cfg(nijaru_sy_verif)]
+        {
+            verif_sync_delay().await;
+            verif_trace("initial-sync-end");
+        }
 
         println!(
             "\n🔍 Watching {} for changes (Ctrl+C to stop)...\n",
@@ -53,6 +98,8 @@ impl<T: Transport + 'static> WatchMode<T> {
         // Event loop with debouncing
         let mut pending_changes = Vec::new();
         let mut last_sync = Instant::now();
+        #[cfg(nijaru_sy_verif)]
+        verif_trace(&format!("loop-start debounce_us={}", self.debounce.as_micros()));
 
         // Set up Ctrl+C handler
         let ctrl_c = signal::ctrl_c();
@@ -63,6 +110,8 @@ impl<T: Transport + 'static> WatchMode<T> {
             tokio::select! {
                 _ = &mut ctrl_c => {
                     println!("\n⏹️  Stopping watch mode...");
+                    #[cfg(nijaru_sy_verif)]
+                    verif_trace("exit sigint");
                     break;
                 }
                 _ = tokio::time::sleep(Duration::from_millis(10)) => {
@@ -73,6 +122,12 @@ impl<T: Transport + 'static> WatchMode<T> {
             // Process file system events
             match rx.recv_timeout(Duration::from_millis(100)) {
                 Ok(Ok(event)) => {
+                    #[cfg(nijaru_sy_verif)]
+                    verif_trace(&format!(
+                        "event {} kind={}",
+                        if self.should_sync_event(&event) { "kept" } else { "dropped" },
+                        verif_kind(&event.kind)
+                    ));
                     // Filter out events we don't care about
                     if self.should_sync_event(&event) {
                         pending_changes.push(event);
@@ -80,19 +135,43 @@ impl<T: Transport + 'static> WatchMode<T> {
                 }
                 Ok(Err(e)) => {
                     tracing::error!("Watch error: {}", e);
+                    #[cfg(nijaru_sy_verif)]
+                    verif_trace("watch-error");
                 }
                 Err(RecvTimeoutError::Timeout) => {
+                    #[cfg(nijaru_sy_verif)]
+                    verif_trace(&format!(
+                        "timeout pending={} elapsed_us={}",
+                        pending_changes.len(),
+                        last_sync.elapsed().as_micros()
+                    ));
                     // Check if we should sync (debounce timeout reached)
                     if !pending_changes.is_empty() && last_sync.elapsed() >= self.debounce {
                         tracing::info!("Detected {} changes, syncing...", pending_changes.len());
                         println!("📝 Changes detected, syncing...");
+                        #[cfg(nijaru_sy_verif)]
+                        verif_trace(&format!(
+                            "sync-start pending={} elapsed_us={}",
+                            pending_changes.len(),
+                            last_sync.elapsed().as_micros()
+                        ));
 
                         match self.engine.sync(&self.source, &self.destination).await {
                             Ok(_) => {
                                 println!("✓ Sync complete\n");
+                                #[cfg(nijaru_sy_verif)]
+                                {
+                                    verif_sync_delay().await;
+                                    verif_trace("sync-end ok");
+                                }
                             }
                             Err(e) => {
                                 eprintln!("✗ Sync failed: {}\n", e);
+                                #[cfg(nijaru_sy_verif)]
+                                {
+                                    verif_sync_delay().await;
+                                    verif_trace("sync-end err");
+                                }
                             }
                         }
 
@@ -101,6 +180,8 @@ impl<T: Transport + 'static> WatchMode<T> {
                     }
                 }
                 Err(RecvTimeoutError::Disconnected) => {
+                    #[cfg(nijaru_sy_verif)]
+                    verif_trace("exit disconnected");
                     break; // Watcher dropped
                 }
             }
